@@ -22,6 +22,7 @@ RULE = ("Hypothesis: 1-4 well-formed sequences over a shared pool of 2 channels 
         "(channel, pitch, on, off) list identical for the permuted order. Non-trivial: >= 2 inputs and a strictly "
         "overlapping same-key pair across inputs or two inputs whose note spans intersect in time. Distinct by case digest.")
 RULE = RULE + " Rounds e-g: equal-ratio signatures, same-tick signatures of several inputs with a merge-order model, channel pools, silent notes, far shifts, staggered families."
+RULE = RULE + " Round h: all-silent families."
 ASSUMPTIONS = ["the velocity kept by a fused note is not part of the statement",
                "control/program changes are generated as noise but their fate is not part of the statement"]
 TIERS = {"quick": dict(shards=8, examples=1200, alt_ppqn=[480], alt_shards=2),
@@ -52,15 +53,18 @@ def _case(draw, size=1):
             if draw(st.integers(0, 3)) > 0:
                 v = draw(st.sampled_from(pool))
                 metas[i].append(["ts", t, v[0], v[1]] if kind == "ts" else ["ks", t, v])
+    silent_family = draw(st.integers(0, 19)) == 0       # nothing but rests in every input
+    if silent_family:
+        metas = [[] for _ in range(k)]
     seqs = []
     for i in range(k):
-        if draw(st.integers(0, 7)) == 0:
+        if silent_family or draw(st.integers(0, 7)) == 0:
             notes = []
         else:
             notes = draw(gens.wellformed_notes(channels="pool", pitches=pitches, max_notes=6 * size, max_len=40, max_gap=25,
                                                start_max=50))
         meta = metas[i]
-        if draw(st.integers(0, 3)) == 0:
+        if not silent_family and draw(st.integers(0, 3)) == 0:
             meta = meta + [["cc", draw(st.integers(0, 100)), 7, draw(st.integers(0, 127))]]
         spec = {"notes": notes, "meta": meta}
         spec.update(draw(gens.route()))
